@@ -252,6 +252,45 @@ def emit():
     index = {f.fid: i for i, f in enumerate(fns)}
     if len(index) != len(fns):
         raise TranslateError('duplicate function identifiers')
+    # A call of a generator function runs NOTHING of its body: the body runs where the generator is consumed.  The
+    # skeleton treats a call as running the callee in place, which is right only when the generator is consumed where
+    # it is created (yield from / for / list(...) ...).  A generator object that is returned, stored or passed on would
+    # run later, possibly after the lock section that surrounds the call has ended: refuse to translate that.
+    def own_nodes(fn_node):
+        stack = list(ast.iter_child_nodes(fn_node))
+        while stack:
+            nd = stack.pop()
+            if isinstance(nd, (ast.FunctionDef, ast.AsyncFunctionDef, ast.Lambda, ast.ClassDef)):
+                continue
+            yield nd
+            stack.extend(ast.iter_child_nodes(nd))
+    gen_names = {f.name for f in fns if any(isinstance(nd, (ast.Yield, ast.YieldFrom)) for nd in own_nodes(f.node))} - {'mark_dirty'}   # a context manager, modelled as the lock kind LD
+    CONSUMERS = {'list', 'tuple', 'sorted', 'next', 'set', 'any', 'all', 'sum', 'max', 'min', 'dict', 'frozenset'}
+    WRAPPERS = {'islice', 'enumerate', 'zip', 'map', 'filter', 'reversed'}
+    for m, t in mods.items():
+        parents = {}
+        for nd in ast.walk(t):
+            for c in ast.iter_child_nodes(nd):
+                parents[c] = nd
+        def consumed(nd):
+            p = parents.get(nd)
+            if isinstance(p, ast.YieldFrom) or isinstance(p, ast.withitem):
+                return True
+            if isinstance(p, (ast.For, ast.comprehension)) and p.iter is nd:
+                return True
+            if isinstance(p, ast.Call) and isinstance(p.func, ast.Name) and nd in p.args:
+                if p.func.id in CONSUMERS:
+                    return True
+                if p.func.id in WRAPPERS:
+                    return consumed(p)
+            return False
+        for nd in ast.walk(t):
+            if isinstance(nd, ast.Call):
+                fn_ = nd.func
+                nm = fn_.attr if isinstance(fn_, ast.Attribute) else (fn_.id if isinstance(fn_, ast.Name) else None)
+                if nm in gen_names and not consumed(nd):
+                    raise TranslateError(f'{m}.py:{nd.lineno}: the generator created by `{ast.unparse(nd)[:60]}` is not consumed where it is '
+                                         f'created (returned / stored / passed on): its body would run outside the lock section around the call')
 
     def resolve(callee):
         if callee.startswith('__init__@'):
@@ -373,9 +412,40 @@ def emit():
                 quiet[i] = False
                 changed = True
     L.append('Definition quiet_fns : list bool := [' + '; '.join(coq_bool(b) for b in quiet) + '].')
-    ATOMIC = ['FatPath.unlink', 'FatPath.rename', 'FatPath.mkdir', 'FatPath.rmdir', 'FatPath.touch', 'FatPath.write_bytes',
-              'FatPath.write_text', 'FatPath.read_bytes', 'FatPath.read_text', 'FatPath.iterdir', 'FatPath.glob', 'FatPath.rglob',
-              'FatFile.write', 'FatFile.truncate', 'FatFile.readall']
+    # greatest fixpoint: the function never takes the write side -- under the guards of a reading configuration
+    # (access times off, files opened for reading, nothing created): the same guards as for the serving check
+    nowr = [True] * n
+    def takes_write(it):
+        if it[0] == 'with':
+            return it[1] in ('W', 'D') or any(takes_write(x) for x in it[2])
+        if it[0] == 'call':
+            return any(not nowr[t] for t in resolve(it[1]))
+        if it[0] == 'guard':
+            return it[1] not in serve_guards and any(takes_write(x) for x in it[2])
+        if it[0] == 'alt':
+            return any(takes_write(x) for x in it[1])
+        return False
+    changed = True
+    while changed:
+        changed = False
+        for i, f in enumerate(fns):
+            if nowr[i] and any(takes_write(it) for it in f.body):
+                nowr[i] = False
+                changed = True
+    L.append('Definition nowrite_fns : list bool := [' + '; '.join(coq_bool(b) for b in nowr) + '].')
+    ATOMIC_W = ['FatPath.unlink', 'FatPath.rename', 'FatPath.mkdir', 'FatPath.rmdir', 'FatPath.touch', 'FatPath.write_bytes',
+                'FatPath.write_text', 'FatFile.write', 'FatFile.truncate']
+    ATOMIC_R = ['FatPath.read_bytes', 'FatPath.read_text', 'FatPath.iterdir', 'FatPath.glob', 'FatPath.rglob', 'FatFile.readall']
+    ATOMIC = ATOMIC_W + ATOMIC_R
+    # the reading operations are judged under the reading guards: their own open() calls must be for reading
+    for fid in ('FatPath.read_bytes', 'FatPath.read_text'):
+        if fid in index:
+            opens = [c for c in ast.walk(fns[index[fid]].node) if isinstance(c, ast.Call) and ast.unparse(c.func) == 'self.open']
+            def reading(c):
+                modes = [a for a in c.args[:1]] + [k.value for k in c.keywords if k.arg == 'mode']
+                return all(isinstance(m, ast.Constant) and m.value in ('r', 'rb') for m in modes)     # default mode is 'r'
+            if not opens or not all(reading(c) for c in opens):
+                raise TranslateError(f'{fid}: expected self.open() in a reading mode only, found {[ast.unparse(c) for c in opens]}')
     for fid in ATOMIC:
         if fid not in index:
             raise TranslateError(f'{fid}: operation expected to be one exclusive section is missing')
@@ -400,5 +470,6 @@ def emit():
                     continue
                 walk(list(ast.iter_child_nodes(nd)), in_loop, in_lock)
         walk(fn.node.body, False, False)
-    L.append('Definition atomic_entries : list nat := [' + '; '.join(str(index[fid]) for fid in ATOMIC) + '].')
+    L.append('Definition atomic_entries : list nat := [' + '; '.join(str(index[fid]) for fid in ATOMIC_W) + '].')
+    L.append('Definition atomic_read_entries : list nat := [' + '; '.join(str(index[fid]) for fid in ATOMIC_R) + '].')
     return '\n'.join(L) + '\n'
